@@ -31,6 +31,7 @@ def shards(tier, seed):
 		out.append(dict(name=f'struct-{i}', kind='struct', sub=i, rounds=25 if tier == 'quick' else 150, maxsize=20000 if tier == 'quick' else 100000))
 	out.append(dict(name='widths', kind='widths'))
 	out.append(dict(name='bulk-widths', kind='bulk', n=60 if tier == 'quick' else 600))
+	out.append(dict(name='endian', kind='endian', n=12 if tier == 'quick' else 100))
 	if tier == 'thorough':
 		out.append(dict(name='huge', kind='huge'))
 	out.append(dict(name='asan-struct', kind='struct', sub=777, rounds=10 if tier == 'quick' else 60, maxsize=5000, sanitizer='asan'))
@@ -127,6 +128,33 @@ def run_shard(sh, ctx):
 			          (lo, hi, [], [M.maxval(hi)]), (lo, hi, [m], [M.maxval(hi)]), (lo, hi, [1, m], [m + 1, M.maxval(hi)])]
 		for lo, hi, A, B in cases:
 			c.pair(A, B, lo, hi, cls='width-straddle', sample=True)
+	elif kind == 'endian':
+		import gambit.metric as gm
+		rng = random.Random(f'C02-endian-{ctx.seed}')
+		for t in range(sh['n']):
+			A = sorted(rng.sample(range(0, 3000), rng.randint(0, 20)))
+			B = sorted(set(rng.sample(range(0, 3000), rng.randint(0, 20))) | set(A[:rng.randint(0, len(A))]))
+			su = J.dist_su(set(A), set(B))
+			exp = J.expected_bits(*su)
+			for dta in M.DTYPES:
+				for dtb in M.DTYPES:
+					for swap in ((True, False), (False, True), (True, True)):
+						a = np.array(A, dtype=np.dtype(dta).newbyteorder('>') if swap[0] else dta)
+						b = np.array(B, dtype=np.dtype(dtb).newbyteorder('>') if swap[1] else dtb)
+						ctx.case(('endian', dta, dtb, swap, A, B), nontrivial=su[1] > 0)
+						for fn in (gm.jaccarddist, gm.jaccard):
+							try:
+								v = float(fn(a, b))
+							except Exception as e:
+								ctx.count('non_native_endian_rejected')
+								ctx.seen('endian_rejection_errors', type(e).__name__)
+								continue
+							ctx.count('non_native_endian_accepted')
+							d = v if fn is gm.jaccarddist else None
+							ok = (J.bits(v) == exp) if fn is gm.jaccarddist else (v in (float(np.float32(1) - np.uint32(exp).view('f4')), 1.0 - float(np.uint32(exp).view('f4'))))
+							if not ok:
+								ctx.violation('non-native-endian-wrong-value', f'{fn.__name__}({a.dtype.str}, {b.dtype.str}) = {v!r} for s/u={su[0]}/{su[1]}: neither the exact value nor an error',
+								              dict(A=A, B=B, dtypes=[a.dtype.str, b.dtype.str]))
 	elif kind == 'bulk':
 		# the distance reported by the bulk entry points for mixed-width inputs, against the exact oracle (not against the pairwise function)
 		import gambit.metric as gm
